@@ -124,20 +124,22 @@ def templates(C):
                     coff=0, clen=ln, hoff=0, hlen=ln, tag=16)
     T.append(("chacha20-poly1305", chapoly))
 
-    def chained(cname, hname):
+    def chained(cname, hname, rev=False):
         cb = dict(T)[cname]
         hb = dict(T)[hname]
 
         def b(rng, size):
-            d = cb(rng, size)
-            h = hb(rng, size)
+            d = cb(rng, max(size, 16))
+            h = hb(rng, max(size, 16))
             ln = len(d["msg"]) // 2 if d["msg"] != "-" else 0
-            d.update(hash=h["hash"], akey=h["akey"], tag=h["tag"], hoff=0, hlen=ln)
-            # encrypt: cipher then hash (over ciphertext, in place); decrypt: hash then cipher
+            d.update(hash=h["hash"], akey=h["akey"], tag=h["tag"], hoff=0, hlen=(ln * 8 if h["hlen"] != len(h["msg"]) // 2 else ln))
+            if "aiv" in h:
+                d["aiv"] = h["aiv"]
+            # encrypt: cipher then hash (over ciphertext, in place); decrypt: hash then cipher; rev: the other pairing
             d["inplace"] = 1
-            d["order"] = 1 if d["dir"] == 1 else 2
+            d["order"] = (1 if d["dir"] == 1 else 2) if not rev else (2 if d["dir"] == 1 else 1)
             return d
-        T.append((cname + "+" + hname, b))
+        T.append((cname + "+" + hname + ("~rev" if rev else ""), b))
     chained("aes-cbc", "hmac-sha1")
     chained("aes-cbc", "hmac-sha256")
     chained("aes-ctr", "hmac-sha512")
@@ -146,6 +148,14 @@ def templates(C):
     chained("3des-cbc", "hmac-sha1")
     chained("aes-ctr", "aes-cmac")
     chained("zuc-eea3", "sha256")
+    # every multi-buffer cipher family behind / in front of a hash, both pairings of direction and chain order
+    for cn, hn in (("snow3g-uea2", "snow3g-uia2"), ("snow3g-uea2", "hmac-sha256"), ("kasumi-f8", "kasumi-f9"), ("zuc-eea3", "zuc-eia3"),
+                   ("aes-cfb", "hmac-sha256"), ("docsis-aes", "hmac-sha1"), ("chacha20", "poly1305"), ("sm4-cbc", "hmac-sm3"),
+                   ("aes-cbcs", "hmac-sha1"), ("docsis-des", "hmac-md5"), ("aes-ecb", "sha1"), ("aes-cbc", "sha512")):
+        chained(cn, hn)
+        chained(cn, hn, rev=True)
+    for cn, hn in (("aes-cbc", "hmac-sha1"), ("aes-ctr", "hmac-sha512"), ("zuc-eea3", "sha256")):
+        chained(cn, hn, rev=True)
     return T
 
 
